@@ -477,6 +477,10 @@ impl<MutexType: RawMutex, T> GenericMutex<MutexType, T> {
     }
 }
 
+#[cfg(kani)]
+#[path = "/verif/kani/mutex.rs"]
+mod kani_verif;
+
 // Export a non thread-safe version using NoopLock
 
 /// A [`GenericMutex`] which is not thread-safe.
